@@ -28,8 +28,9 @@ Next ==
   \/ \E P \in 1..2, q \in 0..NP : Do("attach_pattern", <<P, q>>, AttachPattern(st, P, q), 29 + q)
   \/ \E P \in 1..2, it \in Items : Do("iadd", <<P, it>>, IAdd(st, P, it), 31 + Len(it))
   \/ \E P \in 1..2 : Do("saveload", <<P>>, SaveLoad(st, P), 37)
-  \/ \E q \in Pats, m \in Mods : Do("set_note_mod", <<q, m>>, SetNoteMod(st, q, m), 41 + m)
-  \/ \E q \in Pats : Do("get_note_mod", <<q>>, GetNoteMod(st, q), 43)
+  \* pattern 1 is a Pattern with a note; pattern ids >= 2 stand for PatternClone objects (no cells)
+  \/ \E q \in {1}, m \in Mods : Do("set_note_mod", <<q, m>>, SetNoteMod(st, q, m), 41 + m)
+  \/ \E q \in {1} : Do("get_note_mod", <<q>>, GetNoteMod(st, q), 43)
 
 CoherentNow == Coherent(st)
 (* a note's module reference never resolves to a module of another project *)
